@@ -24,6 +24,13 @@ pub const FRONT_TIMEOUT_S: u32 = 5;
 /// deadline for "everything is released once every client is gone": 3 x the largest timeout + 2 s
 pub const RELEASE_DEADLINE_S: u64 = 3 * FRONT_TIMEOUT_S as u64 + 2;
 pub const UNKNOWN_TYPE: u8 = 0x20;
+/// response body of a "big" answer of the mock backend (BigBody of spec/H2Conn.tla)
+pub const BIG_BODY: usize = 100;
+/// response body of an "ok" answer (SmallBody of spec/H2Conn.tla)
+pub const SMALL_BODY: usize = 2;
+/// 2^31-1 and the initial value of every flow-control window (WMax, WDef of spec/H2Conn.tla)
+pub const W_MAX: u32 = 0x7fff_ffff;
+pub const W_DEF: u32 = 65_535;
 
 // ------------------------------------------------------------------------------------------------
 // thresholds
@@ -121,6 +128,8 @@ pub fn start_worker(name: &str, k: &Knobs, backend: SocketAddr) -> Result<(Worke
 pub struct BackendState {
     pub seen: Mutex<HashMap<String, String>>, // key -> request head as received
     pub released: Mutex<HashSet<String>>,
+    /// keys whose answer carries a BIG_BODY-byte body instead of "ok"
+    pub big: Mutex<HashSet<String>>,
     pub cv: Condvar,
     pub stop: Mutex<bool>,
 }
@@ -166,7 +175,13 @@ impl MockBackend {
     pub fn release(&self, key: &str) {
         self.state.released.lock().unwrap().insert(key.to_string());
     }
+    /// release with a BIG_BODY-byte response body
+    pub fn release_big(&self, key: &str) {
+        self.state.big.lock().unwrap().insert(key.to_string());
+        self.state.released.lock().unwrap().insert(key.to_string());
+    }
     pub fn forget(&self, prefix: &str) {
+        self.state.big.lock().unwrap().retain(|k| !k.starts_with(prefix));
         self.state.seen.lock().unwrap().retain(|k, _| !k.starts_with(prefix));
         self.state.released.lock().unwrap().retain(|k| !k.starts_with(prefix));
     }
@@ -210,6 +225,14 @@ fn serve(mut s: TcpStream, st: Arc<BackendState>) {
             }
             // a request without body leaves the connection reusable; after an early answer to a request whose
             // body may still be in flight the connection is closed
+            if st.big.lock().unwrap().contains(key) {
+                let mut r = format!("HTTP/1.1 200 OK\r\nContent-Length: {BIG_BODY}\r\n\r\n").into_bytes();
+                r.extend(std::iter::repeat_n(b'x', BIG_BODY));
+                if s.write_all(&r).is_err() { return; }
+                if head.starts_with("GET ") { continue; }
+                let _ = s.flush();
+                return;
+            }
             if head.starts_with("GET ") {
                 if s.write_all(b"HTTP/1.1 200 OK\r\nContent-Length: 2\r\n\r\nok").is_err() { return; }
                 continue;
@@ -381,6 +404,13 @@ impl Concretiser {
                     ("bad", _) => vec![0, 3, 0, 0, 0],
                     (_, "push2") => one(S_ENABLE_PUSH, 2),
                     (_, "win_big") => one(S_INITIAL_WINDOW_SIZE, 0x8000_0000),
+                    // legal values of SETTINGS_INITIAL_WINDOW_SIZE (IwsVal of the spec): what they do depends on
+                    // the windows of the streams that are open
+                    (_, "iws_up") => one(S_INITIAL_WINDOW_SIZE, W_DEF + 1),
+                    (_, "iws_def") => one(S_INITIAL_WINDOW_SIZE, W_DEF),
+                    (_, "iws_0") => one(S_INITIAL_WINDOW_SIZE, 0),
+                    (_, "iws_10") => one(S_INITIAL_WINDOW_SIZE, 10),
+                    (_, "iws_max") => one(S_INITIAL_WINDOW_SIZE, W_MAX),
                     (_, "frame_small") => one(S_MAX_FRAME_SIZE, 100),
                     (_, "unknown_id") => one(0xff, 1),
                     _ => one(S_MAX_CONCURRENT_STREAMS, 100),
@@ -411,6 +441,9 @@ impl Concretiser {
                     ("bad", _) => vec![0, 0, 1],
                     (_, "inc0") => 0u32.to_be_bytes().to_vec(),
                     (_, "incmax") => 0x7fff_ffffu32.to_be_bytes().to_vec(),
+                    // legal on a fresh window: 65535 + near = 2^31-2, 65535 + tomax = 2^31-1 (WuInc of the spec)
+                    (_, "near") => (W_MAX - W_DEF - 1).to_be_bytes().to_vec(),
+                    (_, "tomax") => (W_MAX - W_DEF).to_be_bytes().to_vec(),
                     _ => 1u32.to_be_bytes().to_vec(),
                 };
                 (WINDOW_UPDATE, p)
@@ -461,6 +494,8 @@ pub struct Window {
     pub responses: Vec<(u32, String, bool)>,
     pub data_end: Vec<u32>,
     pub other: Vec<String>,
+    /// DATA frames: (sid, flow-controlled length)
+    pub data: Vec<(u32, usize)>,
 }
 
 impl Window {
@@ -469,6 +504,8 @@ impl Window {
         if self.goaway.is_none() { self.goaway = o.goaway; }
         self.eof |= o.eof;
         self.timed_out = o.timed_out;
+        self.marker_acked |= o.marker_acked;
+        self.data.extend(o.data);
         self.rsts.extend(o.rsts);
         self.settings_acks += o.settings_acks;
         self.ping_acks += o.ping_acks;
@@ -476,9 +513,14 @@ impl Window {
         self.data_end.extend(o.data_end);
         self.other.extend(o.other);
     }
+    /// flow-controlled bytes received on stream `sid`
+    pub fn bytes_on(&self, sid: u32) -> usize { self.data.iter().filter(|d| d.0 == sid).map(|d| d.1).sum() }
     pub fn to_json(&self) -> Value {
+        let mut per: std::collections::BTreeMap<u32, usize> = Default::default();
+        for (sid, n) in &self.data { *per.entry(*sid).or_insert(0) += n; }
         json!({"goaway": self.goaway, "eof": self.eof, "timed_out": self.timed_out, "rsts": self.rsts,
-               "settings_acks": self.settings_acks, "ping_acks": self.ping_acks, "responses": self.responses, "other": self.other})
+               "settings_acks": self.settings_acks, "ping_acks": self.ping_acks, "responses": self.responses, "other": self.other,
+               "data_bytes": per, "data_end": self.data_end})
     }
 }
 
@@ -548,7 +590,7 @@ impl Client {
                         if es { w.data_end.push(f.sid); }
                         w.responses.push((f.sid, status, es));
                     }
-                    DATA => { if f.end_stream() { w.data_end.push(f.sid); } }
+                    DATA => { w.data.push((f.sid, f.payload.len())); if f.end_stream() { w.data_end.push(f.sid); } }
                     WINDOW_UPDATE => {}
                     t => w.other.push(format!("type{t}")),
                 },
